@@ -9,7 +9,7 @@ from .driver import Native, ProofPart, VERIF
 def uf_native(which):
     from units import uf
     return Native('uf_%d' % which, 'uf/main.rs', env={'UF_FILE': uf.FILES[which]},
-                  quick_args=['4', '5'], thorough_args=['5', '5'], rustc_args=(['--cfg', 'has_root_const'] if which == 0 else []),
+                  quick_args=['5', '5'], thorough_args=['6', '5'], rustc_args=(['--cfg', 'has_root_const'] if which == 0 else []),
                   rule='every sequence of n grows followed by <= k operations from {grow, root(i), root_const(i), union(root i, root j)} '
                        'on the real Unification<E>, compared after every step with a reference partition; each sequence is distinct by '
                        'construction; non-trivial = contains at least two unions')
